@@ -189,6 +189,10 @@ func TestHarness(t *testing.T) {
 					emit(FamForeign(seed))
 				}
 			}
+			if has("bursteof") {
+				emit(guard("bursteof", "json-raw/message", seed, func() SysRecord { return FamBurstEOF(false, seed) }))
+				emit(guard("bursteof", "json-raw/stream", seed, func() SysRecord { return FamBurstEOF(true, seed) }))
+			}
 			if has("streamtear") {
 				emit(guard("streamtear", "json-raw/stream", seed, func() SysRecord { return FamStreamTear(seed) }))
 			}
